@@ -16,6 +16,7 @@ import (
 
 	"git.sr.ht/~rockorager/vaxis"
 	"git.sr.ht/~rockorager/vaxis/ansi"
+	"verifharness/gen"
 )
 
 // lower-case runes by their upper case: lowerOf[c] = every r with IsLower(r) && ToUpper(r) == c.
@@ -254,6 +255,9 @@ func (h *H) emitXpu(kind, class string, c, C rune, m int, form int) {
 // uniPoints: the code points of other scripts the dec / xp / self streams use, a fixed list of
 // awkward ones, samples of the two classes violating `noLowerMapsTo`, and a random sample.
 func (h *H) uniPoints() []rune {
+	// gen.New(seed) and gen.New(seed+1) are the same splitmix64 sequence shifted by one draw: derive a
+	// stream of our own that is far apart for neighbouring seeds
+	rng := gen.New(h.r.Seed*0x1000003 + 0x5151)
 	seen := map[rune]bool{}
 	var out []rune
 	add := func(rs ...rune) {
@@ -308,20 +312,20 @@ func (h *H) uniPoints() []rune {
 		if h.r.Thorough {
 			add(noUpper[i])
 		} else {
-			add(noUpper[h.rng.Intn(len(noUpper))])
+			add(noUpper[rng.Intn(len(noUpper))])
 		}
 	}
 	for i := 0; i < nr; i++ {
 		var c rune
-		switch h.rng.Intn(4) {
+		switch rng.Intn(4) {
 		case 0:
-			c = rune(h.rng.Range(0xA0, 0x24FF))
+			c = rune(rng.Range(0xA0, 0x24FF))
 		case 1:
-			c = rune(h.rng.Range(0x2500, 0xFFFF))
+			c = rune(rng.Range(0x2500, 0xFFFF))
 		case 2:
-			c = rune(h.rng.Range(0x10000, 0x10FFFF))
+			c = rune(rng.Range(0x10000, 0x10FFFF))
 		default:
-			c = rune(h.rng.Range(0x370, 0x58F)) // Greek, Cyrillic, Armenian: cased scripts
+			c = rune(rng.Range(0x370, 0x58F)) // Greek, Cyrillic, Armenian: cased scripts
 		}
 		add(c)
 	}
